@@ -510,12 +510,19 @@ impl Retrier {
                     Err(e) => {
                         match e {
                             AddAppointmentError::RequestError(e) => {
+                                // Both a tower that cannot be reached and a reply that cannot be understood
+                                // are retried later, following the backoff strategy (the latter used to be
+                                // re-sent straightaway, over and over).
                                 if e.is_connection() {
                                     log::warn!(
                                         "{tower_id} cannot be reached. Tower will be retried later"
                                     );
-                                    return Err(Error::transient(RetryError::Unreachable));
+                                } else {
+                                    log::warn!(
+                                        "{tower_id} sent an unexpected response ({e:?}). Tower will be retried later"
+                                    );
                                 }
+                                return Err(Error::transient(RetryError::Unreachable));
                             }
                             AddAppointmentError::ApiError(e) => match e.error_code {
                                 errors::INVALID_SIGNATURE_OR_SUBSCRIPTION_ERROR => {
